@@ -173,7 +173,7 @@ func init() {
 		return nil
 	}
 	symFuncs["Yield"] = func(ex *Exec, fr *frame, fn *ssa.Function, args []Value) Value {
-		ex.yield("sym.Yield")
+		ex.yieldFree("sym.Yield")
 		return nil
 	}
 	symFuncs["Tier"] = func(ex *Exec, fr *frame, fn *ssa.Function, args []Value) Value {
